@@ -196,6 +196,23 @@ pub fn bar_after(_args: &[String]) -> String {
             return report("C01 a cleared bar leaves no residue (custom key with a line break)", &hist, &logs.join("\n"), &got, "bar_after");
         }
     }
+    // a line of double-width characters that wraps: counted by its columns, not by its characters
+    {
+        let term = InMemoryTerm::new(8, 10);
+        let pb = ProgressBar::with_draw_target(Some(10), ProgressDrawTarget::term_like(Box::new(term.clone())));
+        pb.set_style(ProgressStyle::with_template("{msg}").unwrap());
+        let wide = "\u{65e5}\u{672c}\u{8a9e}\u{65e5}\u{672c}\u{8a9e}\u{65e5}\u{672c}";   // 8 characters, 16 columns
+        let mut hist = vec!["10-column terminal, template {msg}".to_string()];
+        for (m, want) in [(wide, "\u{65e5}\u{672c}\u{8a9e}\u{65e5}\u{672c}\n\u{8a9e}\u{65e5}\u{672c}"), ("x", "x"), (wide, "\u{65e5}\u{672c}\u{8a9e}\u{65e5}\u{672c}\n\u{8a9e}\u{65e5}\u{672c}"), ("", "")] {
+            pb.set_message(m);
+            hist.push(format!("set_message({:?})", m));
+            tried += 1;
+            let got = term.contents();
+            if got != want {
+                return report("C01/C19 a wrapped line of double-width characters is erased completely by the next frame", &hist, want, &got, "bar_after");
+            }
+        }
+    }
     // (ii) life after finishing, (iii) where ordinary output lands
     for msg in ["", "short", LONG, "two\nlines"] {
         for fin in 0..5 {
